@@ -119,7 +119,65 @@ var (
 	FlagStats  = flag.String("stats", "", "file receiving the JSON statistics")
 	FlagReplay = flag.String("replay", "", "replay file (op lines) to run instead of generating")
 	FlagScale  = flag.Int("scale", 1, "multiplier on case counts")
+	FlagPhase  = flag.String("phase", "main", "pre: only collect Ask() requests; main: normal run")
+	FlagPreOps = flag.String("preops", "", "pre phase: file receiving the Ask() request lines")
+	FlagPreOut = flag.String("preout", "", "main phase: the Lean driver's answers to the Ask() lines")
+	FlagMode   = flag.String("mode", "", "harness-specific mode")
 )
+
+// ---------- two-phase requests to the model ----------
+// Ask lets a harness obtain values computed by the Lean model (e.g. ciphertexts made by the
+// independent implementation). The harness is run twice with identical generation: the pre phase
+// records the request lines, the check script pipes them through the driver, the main phase gets
+// the answers in the same order.
+var (
+	askW    *bufio.Writer
+	askF    *os.File
+	answers []string
+	askN    int
+)
+
+func Ask(line string) string {
+	if !flag.Parsed() {
+		flag.Parse()
+	}
+	if *FlagPhase == "pre" {
+		if askW == nil {
+			f, err := os.Create(*FlagPreOps)
+			if err != nil {
+				panic(err)
+			}
+			askF = f
+			askW = bufio.NewWriterSize(f, 1<<20)
+		}
+		askW.WriteString(line + "\n")
+		return ""
+	}
+	if answers == nil {
+		b, err := os.ReadFile(*FlagPreOut)
+		if err != nil {
+			panic(err)
+		}
+		answers = strings.Split(strings.TrimRight(string(b), "\n"), "\n")
+	}
+	if askN >= len(answers) {
+		panic("hlib.Ask: ran out of model answers (pre and main phase diverged)")
+	}
+	a := answers[askN]
+	askN++
+	return a
+}
+
+// Pre reports whether this is the request-collecting phase.
+func Pre() bool { return *FlagPhase == "pre" }
+
+func closeAsk() {
+	if askW != nil {
+		askW.Flush()
+		askF.Close()
+	}
+}
+
 
 func Open(property string) *Out {
 	if !flag.Parsed() {
@@ -181,6 +239,7 @@ func (o *Out) Violate(format string, a ...any) {
 }
 
 func (o *Out) Close() {
+	closeAsk()
 	o.ops.Flush()
 	o.res.Flush()
 	o.fo.Close()
